@@ -422,7 +422,7 @@ PROPS["C02"]["mc"].append(LAYER_TERMS)
 PROPS["C01"]["level_note"] += "; smooth and leaky activations composed with the layer structure are checked in term mode on a 9-entry configuration menu (symbolic forward from the same tap formulas, gradients by the symbolic differentiator, 1e-4)"
 
 NET_TRACE = {"group": "net", "trace_module": "Trace_Net", "tlc_timeout": 1500}
-for _p in ("C02", "C08", "C16", "C17", "C01"):
+for _p in ("C02", "C08", "C16", "C17", "C01", "C11"):
     PROPS[_p].setdefault("record", []).append(NET_TRACE)
     PROPS[_p]["technique"] += " + TLC validation of recorded builder/forward/backward sessions of random larger networks (Trace_Net)"
 
